@@ -29,7 +29,7 @@ def scratch_dir():
 class Loaded:
     """A program imported block by block; ``errors[name]`` is what defining that block raised."""
 
-    def __init__(self, program, text_blocks=None):
+    def __init__(self, program, text_blocks=None, on_block=None):
         self.program = program
         text, blocks = text_blocks if text_blocks is not None else R.render(program)
         self.text = text
@@ -47,6 +47,8 @@ class Loaded:
                 code = compile("\n" * (first - 1) + src, self.path, "exec")
                 exec(code, self.mod.__dict__)
                 self.errors[name] = None
+                if on_block is not None:
+                    on_block(self, name)
             except BaseException as e:  # noqa - definition-time outcome is an observation
                 self.errors[name] = e
                 if name.startswith("<"):
